@@ -771,7 +771,8 @@ static bool_t rngIsValid_internal()
 bool_t rngIsValid()
 {
 	bool_t b;
-	if (!_inited)
+	// инициализация еще не завершена? завершена неудачно?
+	if (mtAtomicCmpSwap(&_once, SIZE_MAX, SIZE_MAX) != 1 || !_inited)
 		return FALSE;
 	mtMtxLock(_mtx);
 	b = rngIsValid_internal();
